@@ -356,6 +356,17 @@ def _digest(o):
     return hashlib.sha256(json.dumps(o, sort_keys=True, default=repr).encode()).hexdigest()[:12]
 
 
+def _uncovered():
+    try:
+        from . import lib as _lib, model as _M
+        u = _M.uncovered_entry_points(_lib.load())
+    except Exception as e:  # noqa
+        return [f"(could not be computed: {e!r})"]
+    if u:
+        log("WARNING: public entry points that no generator addresses: " + ", ".join(u))
+    return u
+
+
 def write_evidence(prop, pid, tier, seed, tot, wall, nviol, known, stopped_early, planned):
     cov = {
         "evaluations": tot["n"],
@@ -374,6 +385,7 @@ def write_evidence(prop, pid, tier, seed, tot, wall, nviol, known, stopped_early
         "stats": tot["stats"],
         "components": getattr(prop, "COMPONENTS", {}),
         "known_findings_seen": known,
+        "uncovered_entry_points": _uncovered(),
         "engine": getattr(prop, "ENGINE", "seqsim"),
     }
     if hasattr(prop, "extra_coverage"):
